@@ -17,7 +17,7 @@ HUGE_NUMBER = re.compile(r"\d{5,}")
 KINDS = ["truncate", "truncate", "delete", "duplicate", "replace", "replace", "swap", "dangling", "dangling",
          "dangling", "dangling",
          "unsupported", "all-truncations", "garbage", "recursive", "recursive", "dup-construct",
-         "dup-construct", "unopenable"]
+         "dup-construct", "unopenable", "mangle", "mangle", "wide-constant"]
 JUNK = ["(", ")", "0", "zz", '"s"', "cell", "net", "module", "endmodule", ";", ",", ".", "[", "]", "{", "}",
         ".model", ".end", ".subckt", "=", "\\", "`celldefine", "(*", "*)", "assign", "wire", "#"]
 
@@ -40,8 +40,9 @@ def tokenize(fmt, text):
     if fmt == "edif":
         return re.findall(r'"[^"]*"|[()]|[^\s()"]+', text)
     if fmt == "verilog":
-        return re.findall(r'//[^\n]*\n?|/\*.*?\*/|\(\*|\*\)|\\\S+\s|`\w+|"[^"]*"|[A-Za-z_0-9\'$]+|\S', text,
-                          re.S)
+        # (a `timescale directive owns the rest of its line: one token, like a // comment)
+        return re.findall(r'//[^\n]*\n?|`timescale[^\n]*\n?|/\*.*?\*/|\(\*|\*\)|\\\S+\s|`\w+|"[^"]*"|'
+                          r'[A-Za-z_0-9\'$]+|\S', text, re.S)
     out = []
     for line in text.split("\n"):
         out.extend(line.split())
@@ -55,7 +56,9 @@ def join(fmt, toks):
     out = []
     for t in toks:
         out.append(t)
-        out.append("\n" if t.startswith("//") and not t.endswith("\n") else " ")
+        # the Verilog reader treats everything after a `directive as part of its line: keep directives
+        # (and // comments) on lines of their own, or the rest of the file is silently skipped
+        out.append("\n" if t.startswith(("//", "`")) and not t.endswith("\n") else " ")
     return "".join(out)
 
 
@@ -349,6 +352,28 @@ class C15(Prop):
         if kind == "garbage":
             return [(join(fmt, toks[:i]) + " \x00\x07 %s ((( " % JUNK[w % len(JUNK)] + join(fmt, toks[i:]),
                      False, "garbage")]
+        if kind == "mangle":
+            # an identifier-like token gets an illegal tail (a long token plus a character the
+            # identifier rule rejects is where a careless regular expression starts to crawl)
+            idx = [k for k in range(n) if re.fullmatch(r"[A-Za-z_&\\][A-Za-z0-9_]*", toks[k] or "")]
+            if not idx:
+                return [(join(fmt, toks[:i]), False, "truncate")]
+            longest = sorted(idx, key=lambda k: -len(toks[k]))[:max(3, len(idx) // 4)]
+            k = longest[pos % len(longest)]
+            tail = ["-x", "[0]", "$", ".", "-", "!", "_-_x"][w % 7]
+            t2 = list(toks)
+            t2[k] = toks[k] + tail
+            return [(join(fmt, t2), False, "mangle")]
+        if kind == "wide-constant" and fmt == "verilog":
+            # sized binary constants wider than one bit are not supported: to be refused, whatever
+            # the number of digits of the width
+            idx = [k for k in range(n) if re.fullmatch(r"1'b[01]", toks[k] or "")]
+            if not idx:
+                return [(join(fmt, toks[:i]), False, "truncate")]
+            k = idx[pos % len(idx)]
+            t2 = list(toks)
+            t2[k] = ["2'b01", "10'b0", "12'b1", "16'b0", "100'b1", "9'b0"][w % 6]
+            return [(join(fmt, t2), True, "wide-constant")]
         if kind == "unopenable":
             return [(("PATH", "missing" if w % 2 else "directory"), True, "unopenable")]
         if kind == "dup-construct":
